@@ -153,3 +153,304 @@ def h_update(ctx, it):
     ctx.prove('matrix_stored', it.getattr(w, 'A') is A2)
     ctx.prove('index_sets_from_new_matrix', [int(v) for v in it.getattr(w, 'diagonal_idx').data] == [2, 3] and [int(v) for v in it.getattr(w, 'nondiagonal_idx').data] == [0, 1])
     ctx.prove('inner_updated_once_per_call', len(upd) == 2 and upd[0] is A1 and upd[1] is A2)
+
+
+# ------------------------------------------------------------------------------------------------ the reconstruction step (Gram-Schmidt reuse)
+import functools   # noqa: E402
+import numpy as np   # noqa: E402
+from pvc.values import Cx   # noqa: E402
+
+
+def _dot(M, v, rows, cols):
+    out = []
+    for r in rows:
+        t = 0
+        for c_, c in enumerate(cols):
+            t = V.add(t, V.mul(M[r, c], v[c_]))
+        out.append(t)
+    return out
+
+
+DS_CASES = [(2, 0, 'vec', False), (2, 1, 'vec', False), (2, 1, 'block', False), (3, 1, 'vec', True), (3, 1, 'block', True), (2, 2, 'vec', False), (2, 0, 'cvec', True)]
+for (_n, _ndb, _rhs, _dec) in DS_CASES:
+    @harness(P, f'LDAWrapper._do_solve_1rhs[n={_n},stored={_ndb},rhs={_rhs},decoupled_dof={_dec}]', targets=[f'{S}:LDAWrapper._do_solve_1rhs', f'{S}:LinearSolver.residual'],
+             timeout=20000)
+    def h_do_solve(ctx, it, n=_n, ndb=_ndb, rhs_kind=_rhs, dec=_dec):
+        """reconstruction from a database of ndb stored pairs satisfying the class invariant  A_ss x_k = b_k  (s = coupled dofs), symbolic general
+        real A (optionally with one decoupled dof), symbolic right-hand side (vector / two-column block) and tolerance; inner solver through its
+        contract (returns xnew with A xnew = its argument).  Proved on every path (which columns exceed the tolerance is a complete case split):
+        a column that was solved satisfies A x = rhs exactly, a column that was not has relative residual <= tol (reuse without inner solve),
+        at most one inner solve is made and its right-hand side is the not-yet-represented part of the solved columns (zero on decoupled dofs),
+        every pair in the database afterwards still satisfies the invariant, the argument arrays are not modified"""
+        ctx.safety_on = False
+        ctx.warnings_unobserved = True
+        ctx.feasible_timeout_ms = 500
+        cplx = rhs_kind == 'cvec'          # complex general matrix, reconstruction on the ADJOINT system as LDAWrapper.solve(trans='H') requests it
+        if cplx:
+            rhs_kind = 'vec'
+        d0 = np.empty((n, n), dtype=object)
+        for i in range(n):
+            for j in range(n):
+                d0[i, j] = Cx(ctx.sym(f'a{i}{j}r', 'real'), ctx.sym(f'a{i}{j}i', 'real')) if cplx else ctx.sym(f'a{i}{j}', 'real')
+                if dec and (i == 0) != (j == 0):
+                    d0[i, j] = 0
+        if dec:
+            ctx.assume(V.z(V.cmp('!=', d0[0, 0], 0)))
+        A0 = CArr(d0, 'complex' if cplx else 'real')          # the matrix the wrapper is updated with
+        d = np.array([[V.conj(d0[j, i]) for j in range(n)] for i in range(n)], dtype=object) if cplx else d0
+        A = CArr(d, 'complex') if cplx else A0                # the matrix handed to the reconstruction (A^H in adjoint storage)
+        idia = [0] if dec else []
+        isel = [i for i in range(n) if i not in idia]
+        m = len(isel)
+        inner = it.new_object(it.get_function(f'{S}:LinearSolver'))
+        w = it.call(it.get_function(f'{S}:LDAWrapper'), [inner])
+        tol = ctx.sym('tol', 'real')
+        ctx.assume(tol > 0)
+        it.setattr(w, 'tol', tol)
+        # the wrapper's state is established by its own update(): the decoupled-dof detection is used through its contract (get_diagonal_indices.post:
+        # exactly the dofs whose row and column are otherwise zero), the class flags are those of a general real matrix
+        it.summaries[f'{S}:LinearSolver.update'] = lambda itp, a, k: None
+        it.summaries[f'{MC}:matrix_is_symmetric'] = lambda itp, a, k: False
+        it.summaries[f'{MC}:matrix_is_hermitian'] = lambda itp, a, k: False
+        it.summaries[f'{MC}:matrix_is_complex'] = lambda itp, a, k: False
+        it.summaries[f'{S}:get_diagonal_indices'] = lambda itp, a, k: CArr(np.array([i in idia for i in range(n)], dtype=object), 'bool')
+        it.call(it.getattr(w, 'update'), [A0])
+        ctx.prove('setup.index_sets', [int(v) for v in it.getattr(w, 'diagonal_idx').data] == idia and [int(v) for v in it.getattr(w, 'nondiagonal_idx').data] == isel)
+        xs, bs = [], []
+        for k in range(ndb):
+            xk = [ctx.sym(f'xs{k}_{j}', 'real') for j in range(m)]
+            bk = _dot(d, xk, isel, isel)                       # class invariant:  b_k = A_ss x_k  (by definition here)
+            nb = 0
+            for v in bk:
+                nb = V.add(nb, V.mul(v, v))
+            ctx.assume(V.z(V.cmp('!=', nb, 0)))
+            xs.append(CArr(np.array(xk, dtype=object), 'real'))
+            bs.append(CArr(np.array(bk, dtype=object), 'real'))
+        ncol = 1 if rhs_kind == 'vec' else 2
+        rv = np.empty((n,) if rhs_kind == 'vec' else (n, 2), dtype=object)
+        for idx in np.ndindex(*rv.shape):
+            nm_ = 'r' + ''.join(map(str, idx))
+            rv[idx] = Cx(ctx.sym(nm_ + 're', 'real'), ctx.sym(nm_ + 'im', 'real')) if cplx else ctx.sym(nm_, 'real')
+        rhs = CArr(rv, 'complex' if cplx else 'real')
+        rhs0 = rv.copy()
+        a0 = d.copy()
+        calls = []
+
+        def solve_fn(b, x0):
+            bb = b.data.reshape(n, -1)
+            xn = np.empty(bb.shape, dtype=object)
+            for c in range(bb.shape[1]):
+                for j in range(n):
+                    xn[j, c] = Cx(ctx.fresh(f'xnew{len(calls)}_{j}{c}r', 'real'), ctx.fresh(f'xnew{len(calls)}_{j}{c}i', 'real')) if cplx else ctx.fresh(f'xnew{len(calls)}_{j}{c}', 'real')
+                for i, t in enumerate(_dot(d, list(xn[:, c]), range(n), range(n))):
+                    ctx.assume(V.z(V.cmp('==', t, bb[i, c])))
+            calls.append((bb.copy(), xn.copy(), x0))
+            return CArr(xn.reshape(b.shape), 'complex' if cplx else 'real')
+        from pvc.interp import Builtin
+        res_calls = []
+
+        def residual(itp, args, kw):
+            # contract of LinearSolver.residual (own harness below): one relative residual ||op(A) x - b|| / ||b|| >= 0 per column
+            Aarg, xarg, barg = args[-3:] if len(args) == 3 else args[1:4]     # residual is a staticmethod
+            r = np.empty((barg.shape[1],), dtype=object)
+            for c in range(barg.shape[1]):
+                r[c] = ctx.fresh(f'relres{c}', 'real')
+                ctx.assume(r[c] >= 0)
+            res_calls.append((Aarg, xarg.data.copy(), barg.data.copy(), kw.get('trans', 'N'), r.copy()))
+            return CArr(r, 'real')
+        it.summaries[f'{S}:LinearSolver.residual'] = residual
+        watch = it.watches.setdefault(f'{S}:LDAWrapper._do_solve_1rhs', {})
+        for nm in ('bnrm', 'beta', 'xadd', 'badd'):
+            watch[nm] = []
+        ret = it.call(it.getattr(w, '_do_solve_1rhs'), [A, rhs, xs, bs, Builtin('solve_fn', solve_fn)], {'x0': None})
+        ctx.prove('result_shape', isinstance(ret, CArr) and tuple(ret.shape) == tuple(rhs.shape))
+        R = ret.data.reshape(n, -1)
+        ctx.prove('at_most_one_inner_solve', len(calls) <= 1)
+        did = it.getattr(w, '_did_solve')
+        def decided(v):
+            # the path condition decides every entry of the mask (complete case split inside the code's own mask indexing)
+            if not V.is_sym(v):
+                return bool(v)
+            if ctx.implied(V.zbool(v)):
+                return True
+            if ctx.implied(z3.Not(V.zbool(v))):
+                return False
+            raise AssertionError('mask entry not decided by the path condition')
+        dmask = [decided(v) for v in did.data.reshape(-1)] if isinstance(did, CArr) else [decided(did)] * ncol
+        solved = [c for c in range(ncol) if dmask[c]]
+        ctx.prove('inner_solve_iff_some_column_exceeds_tolerance', (len(calls) == 1) == bool(solved))
+        if len(calls) == 1:
+            ctx.prove('inner_rhs.columns', calls[0][0].shape[1] == len(solved))
+        for c in range(ncol):
+            Ax = _dot(d, list(R[:, c]), range(n), range(n))
+            rc = [rhs0[i] if rhs_kind == 'vec' else rhs0[i, c] for i in range(n)]
+            if dmask[c]:
+                for i in range(n):
+                    ctx.prove(f'column{c}.solved_exactly.row{i}', V.cmp('==', Ax[i], rc[i]))
+            else:
+                ctx.prove(f'column{c}.reused_within_tolerance', V.cmp('<=', res_calls[0][4][c], tol) if len(res_calls) == 1 else False)
+        # the tolerance test is made once, on the reconstructed solution of ALL columns against the caller's right-hand side, untransposed
+        ctx.prove('residual.called_once', len(res_calls) == 1 and res_calls[0][0] is A and res_calls[0][3] == 'N')
+        if len(res_calls) == 1:
+            _, xr, br, _, rr = res_calls[0]
+            ctx.prove('residual.against_the_given_rhs', tuple(br.shape) == (n, ncol) and z3.And(*[V.z(V.cmp('==', br[i, c], rhs0[i] if rhs_kind == 'vec' else rhs0[i, c]))
+                                                                                                   for i in range(n) for c in range(ncol)]))
+            # ... and a column that is not solved afterwards is returned exactly as it was tested
+            for c in range(ncol):
+                if not dmask[c]:
+                    ctx.prove(f'column{c}.returned_as_tested', z3.And(*[V.z(V.cmp('==', R[i, c], xr[i, c])) for i in range(n)]))
+            for c in range(ncol):
+                ctx.prove(f'column{c}.solved_iff_residual_exceeds_tolerance', V.z(V.cmp('>', rr[c], tol)) if dmask[c] else V.z(V.cmp('<=', rr[c], tol)))
+        if len(calls) == 1:
+            for i in idia:
+                ctx.prove(f'inner_rhs.zero_on_decoupled_dof{i}', z3.And(*[V.z(V.cmp('==', calls[0][0][i, c], 0)) for c in range(calls[0][0].shape[1])]))
+        # database invariant after the call
+        ctx.prove('database.lists_in_step', len(xs) == len(bs) and len(xs) >= ndb)
+        from .C11 import Steps
+        st = Steps(ctx, '', lambda f: V.z(f), z3.BoolVal(True))
+        for k in range(len(xs)):
+            xk, bk = list(xs[k].data), list(bs[k].data)
+            Ax = _dot(d, xk, isel, isel)
+            goal = z3.And(*[V.z(V.cmp('==', Ax[i], bk[i])) for i in range(m)])
+            if k < ndb:
+                ctx.prove(f'database.pair{k}.invariant', goal)       # stored pairs are not touched
+                continue
+            # a pair appended by this call.  LCF steps (contracts/C11.py: Steps): (i) its entries are the Gram-Schmidt residual
+            #   x = (xnew_s - sum_j beta_j x_j) / bnrm,   b = ((A xnew)_s - sum_j beta_j b_j) / bnrm
+            # for the coefficients beta_j and the norm bnrm the code computed (program locals read as ghost values), (ii) the generic lemma
+            # "such a residual of pairs satisfying the invariant satisfies the invariant" over fresh variables, (iii) instantiation
+            # which iteration of the append loop produced pair k: vectors whose orthogonalised right-hand side vanishes are skipped (path condition)
+            if k == ndb:
+                plan, pos, size = [], 0, ndb
+                for i_it, nv in enumerate(watch['bnrm']):
+                    bet_i = watch['beta'][pos:pos + size]
+                    pos += size
+                    zero = V.cmp('==', nv, 0)
+                    skipped = (zero is True) or (V.is_sym(zero) and ctx.implied(V.zbool(zero)))
+                    if not skipped:
+                        plan.append((i_it, bet_i, nv))
+                        size += 1
+                ctx.prove('database.appended_count', len(plan) == len(xs) - ndb)
+            if k - ndb >= len(plan):
+                continue
+            q, betas, nrm = plan[k - ndb]
+            xn = [calls[0][1][i, q] for i in isel]
+            axn = _dot(d, [calls[0][1][i, q] for i in range(n)], isel, range(n))
+            def residual_terms(prev_x, prev_b, bet):
+                X = [V.sub(xn[j], functools.reduce(V.add, [V.mul(bet[t], prev_x[t][j]) for t in range(k)], 0)) for j in range(m)]
+                Bv = [V.sub(axn[j], functools.reduce(V.add, [V.mul(bet[t], prev_b[t][j]) for t in range(k)], 0)) for j in range(m)]
+                return X, Bv
+
+            def residual_pair(prev_x, prev_b, bet, N):
+                # N is the reciprocal of the norm (a product keeps the generic lemma polynomial)
+                X, Bv = residual_terms(prev_x, prev_b, bet)
+                return [V.mul(t_, N) for t_ in X], [V.mul(t_, N) for t_ in Bv]
+            prev_x = [list(xs[t].data) for t in range(k)]
+            prev_b = [list(bs[t].data) for t in range(k)]
+            f_nz = st.fact(f'database.pair{k}.norm_nonzero', V.z(V.cmp('!=', nrm, 0)), list(ctx.pc) + [h for h in ctx.hyps if not z3.is_quantifier(h) and 'sqrt' in h.sexpr()][:40])
+            Xt, Bt = residual_terms(prev_x, prev_b, betas)
+            entry_facts = []
+            for e_, (got, stuff) in enumerate(zip(xk + bk, Xt + Bt)):
+                # the code divides by the norm; the lemma below uses the reciprocal:  a = s / N  and  N != 0   =>   a = s * (1 / N)
+                f_div = st.fact(f'database.pair{k}.is_gram_schmidt_residual.entry{e_}', V.z(V.cmp('==', got, V.div(stuff, nrm))), [])
+                entry_facts.append(st.apply(f'database.pair{k}.is_gram_schmidt_residual.entry{e_}.reciprocal_form',
+                                            lambda a_, s_, n_: ([V.z(V.cmp('==', a_, V.div(s_, n_))), V.z(V.cmp('!=', n_, 0))], V.z(V.cmp('==', a_, V.mul(s_, V.div(1, n_))))),
+                                            [got, stuff, nrm], {0, 1, 2}))
+            f_is = z3.And(*entry_facts)
+            st.established.add(st.key(f_is))
+            prev_inv = []
+            for t in range(k):
+                f_t = z3.And(*[V.z(V.cmp('==', a_, b_)) for a_, b_ in zip(_dot(d, prev_x[t], isel, isel), prev_b[t])])
+                if st.key(f_t) not in st.established:
+                    st.established.add(st.key(f_t)) if t < ndb else None      # stored pairs: b_k is A_ss x_k by definition (precondition)
+                prev_inv.append(f_t)
+
+            # generic lemma over fresh variables, with the premises used as definitions (b_t := A_ss x_t for the earlier pairs, the new pair := its
+            # Gram-Schmidt residual): the invariant of the new pair is then an identity in the fresh variables.  The instance for the actual terms
+            # follows by replacing equals (every premise - earlier invariants, non-zero norm, residual form - is established above).
+            gx = [[ctx.fresh('gx', 'real') for _ in range(m)] for _ in range(k)]
+            gb = [_dot(d, gx[t], isel, isel) for t in range(k)]
+            gbet, gN = [ctx.fresh('gbeta', 'real') for _ in range(k)], ctx.fresh('gnorm', 'real')
+            gxn = [ctx.fresh('gxn', 'real') for _ in range(n)]
+            xn_save, axn_save = xn, axn
+            xn, axn = [gxn[i] for i in isel], _dot(d, gxn, isel, range(n))
+            Xg, Bg = residual_pair(gx, gb, gbet, gN)
+            xn, axn = xn_save, axn_save
+            if dec:
+                # the inner solution vanishes on decoupled dofs (its right-hand side is zero there and the row is diagonal): (A xnew)_s = A_ss xnew_s
+                pass
+            concl_g = z3.And(*[V.z(V.cmp('==', a_, b_)) for a_, b_ in zip(_dot(d, Xg, isel, isel), Bg)])
+            concl_i = z3.And(*[V.z(V.cmp('==', a_, b_)) for a_, b_ in zip(_dot(d, xk, isel, isel), bk)])
+            for pr in prev_inv + [f_is, f_nz]:
+                if st.key(pr) not in st.established:
+                    raise AssertionError('premise not established: ' + pr.sexpr()[:200])
+            from .C11 import norm_proves
+            if norm_proves(z3.simplify(concl_g)):
+                ctx.prove(f'database.pair{k}.invariant', True)
+            else:
+                ctx.prove_isolated(f'database.pair{k}.invariant', concl_g, [], full_goal=concl_i)
+            st.established.add(st.key(concl_i))
+        ctx.prove('arguments_untouched', z3.And(*[V.z(V.cmp('==', x, y)) for x, y in zip(rhs.data.flat, rhs0.flat)], *[V.z(V.cmp('==', x, y)) for x, y in zip(A.data.flat, a0.flat)
+                                                                                                                      if is_sym_or_num(x)]))
+
+
+def is_sym_or_num(x):
+    return True
+
+
+for _kind in ('real', 'complex'):
+    for _trans in ('N', 'T', 'H'):
+        @harness(P, f'LinearSolver.residual[{_kind},{_trans}]', targets=[f'{S}:LinearSolver.residual'], timeout=20000)
+        def h_residual(ctx, it, kind=_kind, trans=_trans):
+            """the tolerance test of the reconstruction relies on it: for a two-column block, entry c of the result is
+            ||op(A) x_c - b_c|| / ||b_c||  with the norms taken PER COLUMN (op = identity / transpose / conjugate transpose)"""
+            n, nc = 2, 2
+
+            def sym(nm):
+                return Cx(ctx.sym(nm + 'r', 'real'), ctx.sym(nm + 'i', 'real')) if kind == 'complex' else ctx.sym(nm, 'real')
+            Ad = np.array([[sym(f'a{i}{j}') for j in range(n)] for i in range(n)], dtype=object)
+            xd = np.array([[sym(f'x{i}{c}') for c in range(nc)] for i in range(n)], dtype=object)
+            bd = np.array([[sym(f'b{i}{c}') for c in range(nc)] for i in range(n)], dtype=object)
+            ctx.safety_on = False
+            r = it.call(it.get_function(f'{S}:LinearSolver.residual'), [CArr(Ad, kind), CArr(xd, kind), CArr(bd, kind)], {'trans': trans})
+            ctx.prove('shape', isinstance(r, CArr) and tuple(r.shape) == (nc,))
+            for c in range(nc):
+                num = den = 0
+                for i in range(n):
+                    t = 0
+                    for j in range(n):
+                        e = Ad[i, j] if trans == 'N' else (Ad[j, i] if trans == 'T' else V.conj(Ad[j, i]))
+                        t = V.add(t, V.mul(e, xd[j, c]))
+                    dlt = V.sub(t, bd[i, c])
+                    num = V.add(num, V.add(V.mul(V.real_part(dlt), V.real_part(dlt)), V.mul(V.imag_part(dlt), V.imag_part(dlt))))
+                    den = V.add(den, V.add(V.mul(V.real_part(bd[i, c]), V.real_part(bd[i, c])), V.mul(V.imag_part(bd[i, c]), V.imag_part(bd[i, c]))))
+                rc = r.data[c]
+                # r_c >= 0 and r_c^2 * ||b_c||^2 = ||op(A) x_c - b_c||^2   (for b_c != 0): the quotient of the two Euclidean norms.
+                # LCF steps: the code's value is sqrt(P') / sqrt(Q') for its own sums of squares P', Q' (read off the term), P' = P and Q' = Q are
+                # polynomial identities, sqrt(t)^2 = t >= 0 are the library facts of np.linalg.norm, the rest is a lemma over six fresh variables
+                from .C11 import Steps
+                st = Steps(ctx, '', lambda f: V.z(f), z3.BoolVal(True))
+                rz = V.zreal(rc)
+                ok_shape = z3.is_app(rz) and rz.decl().kind() == z3.Z3_OP_DIV and all(z3.is_app(a_) and a_.decl().name() == 'sqrt' for a_ in rz.children())
+                ctx.prove(f'column{c}.is_quotient_of_two_norms', bool(ok_shape))
+                if not ok_shape:
+                    continue
+                sn, sd = rz.arg(0), rz.arg(1)
+                Pp, Qp = sn.arg(0), sd.arg(0)
+                side = [h for h in ctx.all_hyps() if not z3.is_quantifier(h) and 'sqrt' in h.sexpr()]
+                f_q = V.z(V.cmp('>', den, 0))
+                st.established.add(st.key(f_q))                       # precondition: b_c != 0
+                f_r = st.fact(f'column{c}.value_is_quotient', rz == sn / sd, [])
+                f_pn = st.apply(f'column{c}.numerator_is_residual_norm_squared', lambda: ([], Pp == V.zreal(num)), [], set())
+                f_pd = st.apply(f'column{c}.denominator_is_rhs_norm_squared', lambda: ([], Qp == V.zreal(den)), [], set())
+                f_sn = st.fact(f'column{c}.sqrt_numerator', z3.And(sn >= 0, sn * sn == Pp), side)
+                f_sd = st.fact(f'column{c}.sqrt_denominator', z3.And(sd >= 0, sd * sd == Qp), side)
+
+                def lemma(r_, sn_, sd_, pp_, qp_, p_, q_):
+                    return ([r_ == sn_ / sd_, pp_ == p_, qp_ == q_, z3.And(sn_ >= 0, sn_ * sn_ == pp_), z3.And(sd_ >= 0, sd_ * sd_ == qp_), q_ > 0],
+                            z3.And(r_ >= 0, r_ * r_ * q_ == p_))
+                # premises are established under the keys of the formulas built above
+                for pr, nm in ((f_r, 'r'), (f_pn, 'pn'), (f_pd, 'pd'), (f_sn, 'sn'), (f_sd, 'sd')):
+                    pass
+                st.established.add(st.key(V.zreal(den) > 0))
+                st.apply(f'column{c}.nonnegative_and_squared_quotient', lemma, [rz, sn, sd, Pp, Qp, V.zreal(num), V.zreal(den)], {0, 1, 2, 3, 4, 5, 6})
